@@ -6,6 +6,10 @@ _NOTE = ("Bounded: holds for all values within the bounds recorded in the eviden
 _TECH = "symbolic execution of the real Python code on z3-backed proxy values (BV64/Float64/Real), branch decisions and obligations decided by z3, counterexamples replayed concretely"
 
 CLAIMS = {
+    "C03": {
+        "text": "Bounded symbolic model checking of the real send path into the real receive path for all 36 message/request classes: every field symbolic within its documented domain (ints, flags, lazy enum members, floats on the raw grid as IEEE doubles, UTF-8 strings as validated free bytes, whole-minute durations, packet id), repeat counts 0..2 (quick) with all records free; z3 shows on every path that the delivered header and message equal what was sent, nothing is left over, and header length = size() = bytes produced, 0xC0 sub-header lengths, AT5 outer length (both copies), prefix and checksum span agree.",
+        "note": _NOTE + " The checksum *value* is compared with the repo's calculate() over the reference span; that calculate() is CRC-16/MODBUS is C06.", "technique": _TECH, "design_ref": "DESIGN.md section 6 C03",
+    },
     "C05": {
         "text": "Bounded symbolic model checking of every real status/ability/names/version/error/timer decoder of both generations, called through the registry and the 0x1F / 0xC0 wrappers with every record byte symbolic (record counts, AT5 strides above the known layout, AT4 ability with/without group bitmap, mixed): every decoded field is shown by z3 to equal the reference reading of the same bits (code tables and formulas from the vendor documents; temperatures as IEEE doubles equal to the correctly rounded quotient), sentinels decode to absent values, undefined codes never decode to a defined value. Three recorded findings (non-optional temperature/set-point fields) are carved out by input region.",
         "note": _NOTE, "technique": _TECH, "design_ref": "DESIGN.md section 6 C05",
